@@ -1440,7 +1440,8 @@ public:
     }
     void tstb(SttMod a, Imm16 b) {
         u16 value = RegToBus16(a.GetName());
-        regs.fz = (value >> b.Unsigned16()) & 1;
+        // only the low four bits of the immediate select the bit (the upper twelve are unused)
+        regs.fz = (value >> (b.Unsigned16() & 0xF)) & 1;
     }
 
     void and_(Ab a, Ab b, Ax c) {
